@@ -1434,6 +1434,7 @@ func init() {
 			}
 			runRow(c, r, bms)
 		}})
+		c05WaveD(x)
 	}
 }
 
